@@ -12,3 +12,4 @@ done
 # the harness binary now contains the mutant: rebuild it from the restored tree
 git -C /repo checkout -- . ; git -C /repo clean -fdq
 ( cd /verif/harness && GOFLAGS=-mod=mod GOPROXY=off GOSUMDB=off GOTOOLCHAIN=local go build -tags verif -o /verif/.build/harness . )
+( cd /repo && GOFLAGS=-mod=mod GOPROXY=off GOSUMDB=off GOTOOLCHAIN=local go build -o /verif/.build/gopki . )
